@@ -110,6 +110,12 @@ class WireChopManager(WireManagerBase):
         super().update()
 
     def grade(self) -> None:
+        # start from scratch: grading a mesh again (a second write()) must not
+        # stack the same chops on top of the previous ones
+        self.grading = Grading(0)
+        for wire in self.wires:
+            wire.grading = Grading(wire.length)
+
         self.update()
 
         # Create a proper Grading from chops
